@@ -1,4 +1,631 @@
+(* Txn/Proofs.v — lemmas about Model.v (transaction wrapper, fault injection, managers,
+   chain batch, batched loops) and the obligations on the generated table. *)
 From HostdBase Require Import Base.
+From Coq Require Import String Lia ZifyBool ZifyN ZifyNat.
 From HostdTxn Require Import Shape TxnTable Model.
+
+(** * Table obligations (recomputed from the regenerated TxnTable.v on every build) *)
 Lemma table_ok_holds : table_ok = true.
 Proof. vm_compute. reflexivity. Qed.
+
+Lemma mgr_table_ok_holds : mgr_table_ok = true.
+Proof. vm_compute. reflexivity. Qed.
+
+Lemma sync_ok_holds : sync_ok = true.
+Proof. vm_compute. reflexivity. Qed.
+
+(** * The transaction wrapper *)
+Section P.
+  Variable db : Type.
+  Implicit Types (b : body db) (s : db) (c : fc).
+
+  Lemma tick_some : forall c busy c', tick c = (Some busy, c') -> c' = None /\ c = Some (O, busy).
+  Proof.
+    intros c busy c' H. destruct c as [[[|k] bz]|]; cbn in H; inversion H; auto.
+  Qed.
+
+  Lemma tick_none : forall c c', tick c = (None, c') ->
+    (c = None /\ c' = None) \/ (exists k bz, c = Some (S k, bz) /\ c' = Some (k, bz)).
+  Proof.
+    intros c c' H. destruct c as [[[|k] bz]|]; cbn in H; inversion H; eauto.
+  Qed.
+
+  Definition not_inj (o : bout db) : Prop := forall busy, o <> BInj busy.
+
+  Lemma ni_done : forall s, not_inj (BDone s).
+  Proof. intros s busy E. discriminate. Qed.
+  Lemma ni_err : forall e, not_inj (@BErr db e).
+  Proof. intros e busy E. discriminate. Qed.
+  Lemma ni_panic : not_inj (@BPanic db).
+  Proof. intros busy E. discriminate. Qed.
+
+  (* without a pending fault nothing is injected and the countdown stays empty *)
+  Lemma run_body_none : forall b s o tr c',
+    run_body b s None = (o, tr, c') -> c' = None /\ not_inj o.
+  Proof.
+    induction b as [|[kd f] t IH]; intros s o tr c' H; cbn in H.
+    - inversion H; subst. split; [reflexivity | intros busy E; discriminate].
+    - destruct (eligible kd); cbn in H.
+      + destruct (f s) as [s1| e |].
+        * destruct (run_body t s1 None) as [[o1 tr1] c1] eqn:E. inversion H; subst.
+          eapply IH; eauto.
+        * inversion H; subst. split; [reflexivity | intros busy E; discriminate].
+        * inversion H; subst. split; [reflexivity | intros busy E; discriminate].
+      + destruct (f s) as [s1| e |].
+        * destruct (run_body t s1 None) as [[o1 tr1] c1] eqn:E. inversion H; subst.
+          eapply IH; eauto.
+        * inversion H; subst. split; [reflexivity | intros busy E; discriminate].
+        * inversion H; subst. split; [reflexivity | intros busy E; discriminate].
+  Qed.
+
+  (* a run in which the fault did not fire is the un-faulted run *)
+  Lemma run_body_no_inj : forall b s c o tr c',
+    run_body b s c = (o, tr, c') -> not_inj o -> run_body b s None = (o, tr, None).
+  Proof.
+    induction b as [|[kd f] t IH]; intros s c o tr c' H NI; cbn in H |- *.
+    - inversion H; subst. reflexivity.
+    - destruct (eligible kd) eqn:El.
+      + destruct (tick c) as [fire c1] eqn:Tk. destruct fire as [busy|].
+        * inversion H; subst. exfalso. eapply NI. reflexivity.
+        * cbn. destruct (f s) as [s1| e |].
+          -- destruct (run_body t s1 c1) as [[o1 tr1] c2] eqn:E. inversion H; subst.
+             erewrite IH; eauto.
+          -- inversion H; subst. reflexivity.
+          -- inversion H; subst. reflexivity.
+      + cbn. destruct (f s) as [s1| e |].
+        * destruct (run_body t s1 c) as [[o1 tr1] c2] eqn:E. inversion H; subst.
+          erewrite IH; eauto.
+        * inversion H; subst. reflexivity.
+        * inversion H; subst. reflexivity.
+  Qed.
+
+  (* the injected kind is the one of the countdown, and the countdown is used up *)
+  Lemma run_body_inj : forall b s c busy tr c',
+    run_body b s c = (BInj busy, tr, c') -> c' = None /\ exists k, c = Some (k, busy).
+  Proof.
+    induction b as [|[kd f] t IH]; intros s c busy tr c' H; cbn in H.
+    - inversion H.
+    - destruct (eligible kd) eqn:El.
+      + destruct (tick c) as [fire c1] eqn:Tk. destruct fire as [bz|].
+        * inversion H; subst. apply tick_some in Tk. destruct Tk as [-> ->]. eauto.
+        * destruct (f s) as [s1| e |]; try (inversion H; fail).
+          destruct (run_body t s1 c1) as [[o1 tr1] c2] eqn:E. inversion H; subst.
+          apply IH in E. destruct E as [-> [k Hk]]. split; [reflexivity|].
+          apply tick_none in Tk. destruct Tk as [[-> ->]|[k' [bz [-> Hc1]]]]; [discriminate|].
+          rewrite Hc1 in Hk. inversion Hk; subst. eauto.
+      + destruct (f s) as [s1| e |]; try (inversion H; fail).
+        destruct (run_body t s c) as [[o1 tr1] c2] eqn:E.
+        destruct (run_body t s1 c) as [[o2 tr2] c3] eqn:E2. inversion H; subst.
+        eapply IH; eauto.
+  Qed.
+
+  (* a body that ran to its end consumed one tick per eligible statement *)
+  Lemma run_body_done : forall b s k bz s' tr c',
+    run_body b s (Some (k, bz)) = (BDone s', tr, c') ->
+    (n_elig b <= k)%nat /\ c' = Some ((k - n_elig b)%nat, bz).
+  Proof.
+    unfold n_elig.
+    induction b as [|[kd f] t IH]; intros s k bz s' tr c' H; cbn in H |- *.
+    - inversion H; subst. split; [lia | f_equal; f_equal; lia].
+    - destruct (eligible kd) eqn:El; cbn [fst].
+      + destruct k as [|k]; cbn in H; [inversion H|].
+        destruct (f s) as [s1| e |]; try (inversion H; fail).
+        destruct (run_body t s1 (Some (k, bz))) as [[o1 tr1] c2] eqn:E. inversion H; subst.
+        apply IH in E. destruct E as [Hle ->]. cbn [List.length]. split; [lia | f_equal; f_equal; lia].
+      + destruct (f s) as [s1| e |]; try (inversion H; fail).
+        destruct (run_body t s1 (Some (k, bz))) as [[o1 tr1] c2] eqn:E. inversion H; subst.
+        apply IH in E. exact E.
+  Qed.
+
+  Definition a_inj (a : aout) : Prop := exists busy, a = AInj busy.
+
+  Lemma attempt_unchanged : forall b s c a tr c' s',
+    attempt b s c = (a, tr, c', s') -> a <> AOk -> s' = s.
+  Proof.
+    unfold attempt. intros b s c a tr c' s' H NOk.
+    destruct (tick c) as [fire c1]. destruct fire as [busy|]; [inversion H; auto|].
+    destruct (run_body b s c1) as [[o tr1] c2]. destruct o as [s1| e | | busy]; try (inversion H; subst; auto; fail).
+    destruct (tick c2) as [fire' c3]. destruct fire' as [busy|]; inversion H; subst; auto. congruence.
+  Qed.
+
+  (* a committed transaction installs what its body computes without faults *)
+  Lemma attempt_ok : forall b s c tr c' s',
+    attempt b s c = (AOk, tr, c', s') -> attempt b s None = (AOk, tr, None, s').
+  Proof.
+    unfold attempt. intros b s c tr c' s' H.
+    destruct (tick c) as [fire c1] eqn:Tk. destruct fire as [busy|]; [inversion H|].
+    destruct (run_body b s c1) as [[o tr1] c2] eqn:E. destruct o as [s1| e | | busy]; try (inversion H; fail).
+    destruct (tick c2) as [fire' c3]. destruct fire' as [busy|]; inversion H; subst.
+    cbn. rewrite (run_body_no_inj _ _ _ _ _ _ E (ni_done _)). reflexivity.
+  Qed.
+
+  Lemma attempt_no_inj : forall b s c a tr c' s',
+    attempt b s c = (a, tr, c', s') -> ~ a_inj a -> attempt b s None = (a, tr, None, s').
+  Proof.
+    unfold attempt. intros b s c a tr c' s' H NI.
+    destruct (tick c) as [fire c1] eqn:Tk. destruct fire as [busy|].
+    { inversion H; subst. exfalso. apply NI. eexists; reflexivity. }
+    destruct (run_body b s c1) as [[o tr1] c2] eqn:E. cbn.
+    destruct o as [s1| e | | busy].
+    - destruct (tick c2) as [fire' c3]. destruct fire' as [busy|].
+      + inversion H; subst. exfalso. apply NI. eexists; reflexivity.
+      + inversion H; subst. rewrite (run_body_no_inj _ _ _ _ _ _ E (ni_done _)). reflexivity.
+    - inversion H; subst. rewrite (run_body_no_inj _ _ _ _ _ _ E (ni_err _)). reflexivity.
+    - inversion H; subst. rewrite (run_body_no_inj _ _ _ _ _ _ E ni_panic). reflexivity.
+    - inversion H; subst. exfalso. apply NI. eexists; reflexivity.
+  Qed.
+
+  Lemma attempt_none_not_inj : forall b s a tr c' s',
+    attempt b s None = (a, tr, c', s') -> ~ a_inj a /\ c' = None.
+  Proof.
+    unfold attempt. intros b s a tr c' s' H. cbn in H.
+    destruct (run_body b s None) as [[o tr1] c2] eqn:E.
+    apply run_body_none in E. destruct E as [-> NI].
+    destruct o as [s1| e | | busy]; cbn in H; inversion H; subst;
+      try (split; [intros [bz Hb]; discriminate | reflexivity]).
+    exfalso. eapply NI. reflexivity.
+  Qed.
+
+  (* an injected failure: the countdown is used up, its kind is the countdown's *)
+  Lemma attempt_inj : forall b s c busy tr c' s',
+    attempt b s c = (AInj busy, tr, c', s') -> c' = None /\ s' = s /\ exists k, c = Some (k, busy).
+  Proof.
+    unfold attempt. intros b s c busy tr c' s' H.
+    destruct (tick c) as [fire c1] eqn:Tk. destruct fire as [bz|].
+    { inversion H; subst. apply tick_some in Tk. destruct Tk as [-> ->]. eauto. }
+    destruct (run_body b s c1) as [[o tr1] c2] eqn:E. destruct o as [s1| e | | bz].
+    - destruct (tick c2) as [fire' c3] eqn:Tk2. destruct fire' as [bz|]; inversion H; subst.
+      apply tick_some in Tk2. destruct Tk2 as [-> Hc2]. split; [reflexivity|]. split; [reflexivity|].
+      apply tick_none in Tk. destruct Tk as [[-> ->]|[k [bz' [-> Hc1]]]].
+      + apply run_body_none in E. destruct E as [E _]. congruence.
+      + subst c1. apply run_body_done in E. destruct E as [_ E]. rewrite Hc2 in E. inversion E; subst. eauto.
+    - inversion H.
+    - inversion H.
+    - inversion H; subst. apply run_body_inj in E. destruct E as [-> [k Hk]]. split; [reflexivity|]. split; [reflexivity|].
+      apply tick_none in Tk. destruct Tk as [[-> ->]|[k' [bz' [-> Hc1]]]]; [discriminate|].
+      rewrite Hc1 in Hk. inversion Hk; subst. eauto.
+  Qed.
+
+  (* a fault within the transaction's calls (Begin, eligible statements, Commit) fails the attempt *)
+  Lemma attempt_fault_fails : forall b s k bz a tr c' s',
+    (k <= n_elig b + 1)%nat -> attempt b s (Some (k, bz)) = (a, tr, c', s') -> a <> AOk.
+  Proof.
+    unfold attempt. intros b s k bz a tr c' s' Hk H.
+    destruct k as [|k]; cbn in H; [inversion H; subst; discriminate|].
+    destruct (run_body b s (Some (k, bz))) as [[o tr1] c2] eqn:E. destruct o as [s1| e | | busy];
+      try (inversion H; subst; discriminate).
+    apply run_body_done in E. destruct E as [Hle ->].
+    replace (k - n_elig b)%nat with 0%nat in H by lia. cbn in H. inversion H; subst. discriminate.
+  Qed.
+
+  (** ** Store.transaction *)
+  Lemma transaction_unchanged : forall b s c a tr c' s',
+    transaction b s c = (a, tr, c', s') -> a <> AOk -> s' = s.
+  Proof.
+    unfold transaction. intros b s c a tr c' s' H NOk.
+    destruct (attempt b s c) as [[[a1 tr1] c1] s1] eqn:E1.
+    assert (a1 <> AOk -> s1 = s) as H1 by (eapply attempt_unchanged; eauto).
+    destruct a1 as [| e | | [|]]; try (inversion H; subst; auto; fail).
+    assert (s1 = s) as -> by (apply H1; discriminate).
+    destruct (attempt b s c1) as [[[a2 tr2] c2] s2] eqn:E2. inversion H; subst.
+    eapply attempt_unchanged; eauto.
+  Qed.
+
+  Lemma transaction_none : forall b s, transaction b s None = attempt b s None.
+  Proof.
+    unfold transaction. intros b s. destruct (attempt b s None) as [[[a tr] c'] s'] eqn:E.
+    apply attempt_none_not_inj in E. destruct E as [NI _].
+    destruct a as [| e | | busy]; try reflexivity. exfalso. apply NI. eexists; reflexivity.
+  Qed.
+
+  (* whatever fault was pending: a committed transaction installs the un-faulted result *)
+  Lemma transaction_ok : forall b s c tr c' s',
+    transaction b s c = (AOk, tr, c', s') -> exists tr0, transaction b s None = (AOk, tr0, None, s').
+  Proof.
+    unfold transaction at 1. intros b s c tr c' s' H. rewrite transaction_none.
+    destruct (attempt b s c) as [[[a1 tr1] c1] s1] eqn:E1.
+    destruct a1 as [| e | | [|]]; try (inversion H; fail).
+    - inversion H; subst. apply attempt_ok in E1. eauto.
+    - apply attempt_inj in E1. destruct E1 as [-> [-> _]].
+      destruct (attempt b s None) as [[[a2 tr2] c2] s2] eqn:E2. inversion H; subst.
+      apply attempt_none_not_inj in E2 as E3. destruct E3 as [_ ->]. eauto.
+  Qed.
+
+  (* an injected hard error is never swallowed *)
+  Lemma transaction_hard_fails : forall b s k a tr c' s',
+    (k <= n_elig b + 1)%nat -> transaction b s (Some (k, false)) = (a, tr, c', s') -> a <> AOk.
+  Proof.
+    unfold transaction. intros b s k a tr c' s' Hk H.
+    destruct (attempt b s (Some (k, false))) as [[[a1 tr1] c1] s1] eqn:E1.
+    assert (a1 <> AOk) as N1 by (eapply attempt_fault_fails; eauto).
+    destruct a1 as [| e | | [|]]; try (inversion H; subst; auto; discriminate).
+    apply attempt_inj in E1. destruct E1 as [_ [_ [k' Hk']]]. inversion Hk'.
+  Qed.
+
+  (* the countdown keeps its kind *)
+  Lemma run_body_flag : forall b s k bz o tr c',
+    run_body b s (Some (k, bz)) = (o, tr, c') -> c' = None \/ exists k', c' = Some (k', bz).
+  Proof.
+    induction b as [|[kd f] t IH]; intros s k bz o tr c' H; cbn in H.
+    - inversion H; subst. eauto.
+    - destruct (eligible kd).
+      + destruct k as [|k]; cbn in H; [inversion H; auto|].
+        destruct (f s) as [s1| e |]; try (inversion H; subst; eauto; fail).
+        destruct (run_body t s1 (Some (k, bz))) as [[o1 tr1] c2] eqn:E. inversion H; subst. eapply IH; eauto.
+      + destruct (f s) as [s1| e |]; try (inversion H; subst; eauto; fail).
+        destruct (run_body t s1 (Some (k, bz))) as [[o1 tr1] c2] eqn:E. inversion H; subst. eapply IH; eauto.
+  Qed.
+
+  Lemma tick_flag : forall c bz fire c', (c = None \/ exists k, c = Some (k, bz)) -> tick c = (fire, c') ->
+    c' = None \/ exists k', c' = Some (k', bz).
+  Proof.
+    intros c bz fire c' [->|[k ->]] H; cbn in H.
+    - inversion H; auto.
+    - destruct k; inversion H; eauto.
+  Qed.
+
+  Lemma attempt_flag : forall b s k bz a tr c' s',
+    attempt b s (Some (k, bz)) = (a, tr, c', s') -> c' = None \/ exists k', c' = Some (k', bz).
+  Proof.
+    unfold attempt. intros b s k bz a tr c' s' H.
+    destruct (tick (Some (k, bz))) as [fire c1] eqn:Tk.
+    assert (c1 = None \/ exists k', c1 = Some (k', bz)) as F1 by (eapply tick_flag; eauto).
+    destruct fire as [busy|]; [inversion H; subst; exact F1|].
+    destruct (run_body b s c1) as [[o tr1] c2] eqn:E.
+    assert (c2 = None \/ exists k', c2 = Some (k', bz)) as F2.
+    { destruct F1 as [->|[k' ->]]; [apply run_body_none in E; destruct E; auto | eapply run_body_flag; eauto]. }
+    destruct o as [s1| e | | busy]; try (inversion H; subst; exact F2).
+    destruct (tick c2) as [fire' c3] eqn:Tk2.
+    assert (c3 = None \/ exists k', c3 = Some (k', bz)) as F3 by (eapply tick_flag; eauto).
+    destruct fire' as [busy|]; inversion H; subst; exact F3.
+  Qed.
+
+  (* "database is locked": the transaction is run again and the call behaves like the un-faulted one *)
+  Lemma transaction_busy : forall b s k a tr c' s',
+    transaction b s (Some (k, true)) = (a, tr, c', s') ->
+    (exists tr0, transaction b s None = (a, tr0, None, s')) /\ (c' = None \/ exists k', c' = Some (k', true)).
+  Proof.
+    unfold transaction at 1. intros b s k a tr c' s' H. rewrite transaction_none.
+    destruct (attempt b s (Some (k, true))) as [[[a1 tr1] c1] s1] eqn:E1.
+    pose proof (attempt_flag _ _ _ _ _ _ _ _ E1) as F.
+    destruct a1 as [| e | | [|]].
+    - inversion H; subst. split; [apply attempt_ok in E1; eauto | exact F].
+    - inversion H; subst. split; [|exact F].
+      eapply attempt_no_inj in E1; eauto. intros [bz Hb]; discriminate.
+    - inversion H; subst. split; [|exact F].
+      eapply attempt_no_inj in E1; eauto. intros [bz Hb]; discriminate.
+    - apply attempt_inj in E1. destruct E1 as [-> [-> _]].
+      destruct (attempt b s None) as [[[a2 tr2] c2] s2] eqn:E2. inversion H; subst.
+      apply attempt_none_not_inj in E2 as E3. destruct E3 as [_ ->]. split; eauto.
+    - apply attempt_inj in E1. destruct E1 as [_ [_ [k' Hk']]]. inversion Hk'.
+  Qed.
+
+  (** ** Exported methods *)
+
+  (* a method that is one transaction: any failure leaves the committed state as it was *)
+  Lemma single_atomic : forall b s c xf,
+    r_res (exec [ITxn b] s c xf) <> Ok tt -> r_db (exec [ITxn b] s c xf) = s.
+  Proof.
+    intros b s c xf. cbn. destruct (transaction b s c) as [[[a tr] c'] s'] eqn:E.
+    destruct a as [| e | | busy]; cbn; intros H.
+    - congruence.
+    - eapply transaction_unchanged; eauto. discriminate.
+    - eapply transaction_unchanged; eauto. discriminate.
+    - eapply transaction_unchanged; eauto. discriminate.
+  Qed.
+
+  (* ... and success installs exactly what the un-faulted body computes *)
+  Lemma single_all : forall b s c xf,
+    r_res (exec [ITxn b] s c xf) = Ok tt ->
+    exists tr0, run_body b s None = (BDone (r_db (exec [ITxn b] s c xf)), tr0, None).
+  Proof.
+    intros b s c xf. cbn. destruct (transaction b s c) as [[[a tr] c'] s'] eqn:E.
+    destruct a as [| e | | busy]; cbn; intros H; try discriminate.
+    apply transaction_ok in E. destruct E as [tr0 E]. rewrite transaction_none in E.
+    unfold attempt in E. cbn in E. destruct (run_body b s None) as [[o tr1] c2] eqn:E2.
+    apply run_body_none in E2 as E3. destruct E3 as [-> _].
+    destruct o as [s1| e | | busy]; cbn in E; inversion E; subst. eauto.
+  Qed.
+
+  Lemma single_fault_not_swallowed : forall b s k xf,
+    (k <= n_elig b + 1)%nat -> r_res (exec [ITxn b] s (Some (k, false)) xf) <> Ok tt.
+  Proof.
+    intros b s k xf Hk. cbn. destruct (transaction b s (Some (k, false))) as [[[a tr] c'] s'] eqn:E.
+    apply transaction_hard_fails in E; auto. destruct a as [| e | | busy]; cbn; congruence.
+  Qed.
+
+  Lemma single_busy_transparent : forall b s k xf,
+    r_db (exec [ITxn b] s (Some (k, true)) xf) = r_db (exec [ITxn b] s None xf) /\
+    r_res (exec [ITxn b] s (Some (k, true)) xf) = r_res (exec [ITxn b] s None xf).
+  Proof.
+    intros b s k xf. cbn. destruct (transaction b s (Some (k, true))) as [[[a tr] c'] s'] eqn:E.
+    apply transaction_busy in E. destruct E as [[tr0 E] _]. rewrite E.
+    destruct a; cbn; auto.
+  Qed.
+
+  (* a method made of several transactions: whatever happens, the committed state is the
+     one reached by running a prefix of its transactions without faults *)
+  Lemma prefix_commit : forall p s c xf,
+    only_txn p = true ->
+    exists n, (n <= List.length p)%nat /\
+      r_db (exec p s c xf) = r_db (exec (firstn n p) s None xf) /\
+      r_res (exec (firstn n p) s None xf) = Ok tt /\
+      (r_res (exec p s c xf) = Ok tt -> n = List.length p).
+  Proof.
+    induction p as [|i t IH]; intros s c xf Ho.
+    - exists O. cbn. auto.
+    - destruct i as [b|comp|f|b|b]; cbn in Ho; try discriminate.
+      cbn [exec]. destruct (transaction b s c) as [[[a tr] c'] s'] eqn:E.
+      destruct a as [| e | | busy].
+      + apply transaction_ok in E as E0. destruct E0 as [tr0 E0].
+        destruct (IH s' c' xf Ho) as [n [Hn [Hdb [Hres Hall]]]].
+        exists (S n). cbn [firstn exec List.length]. rewrite E0. cbn.
+        repeat split; auto; try lia; try (intros H; f_equal; auto).
+      + exists O. cbn. assert (s' = s) as -> by (eapply transaction_unchanged; eauto; discriminate).
+        repeat split; auto; try lia; try discriminate.
+      + exists O. cbn. assert (s' = s) as -> by (eapply transaction_unchanged; eauto; discriminate).
+        repeat split; auto; try lia; try discriminate.
+      + exists O. cbn. assert (s' = s) as -> by (eapply transaction_unchanged; eauto; discriminate).
+        repeat split; auto; try lia; try discriminate.
+  Qed.
+End P.
+
+(** * Managers *)
+Section MgrP.
+  Variables (db cache : Type).
+  Variable load : db -> cache.
+
+  Lemma cache_after_commit : forall o s c xf,
+    m_pos o = CacheAfterOk -> fails_clean (m_store o) -> right_on_success load o ->
+    coherent load s -> coherent load (fst (mgr_exec o s c xf)).
+  Proof.
+    unfold coherent, mgr_exec, fails_clean, right_on_success. intros o [d ch] c xf Hpos Hf Hr Hc. cbn in *. rewrite Hpos. cbn.
+    destruct (r_res (exec (m_store o) d c xf)) as [[]| e |] eqn:E; cbn.
+    - subst ch. apply Hr. exact E.
+    - rewrite Hf; [exact Hc | rewrite E; discriminate].
+    - rewrite Hf; [exact Hc | rewrite E; discriminate].
+  Qed.
+
+  Lemma single_fails_clean : forall b : body db, fails_clean [ITxn b].
+  Proof. intros b d c xf H. apply single_atomic. exact H. Qed.
+End MgrP.
+
+(* the order "cache first, store second" loses coherence on the first failed write *)
+
+Lemma cache_before_store_incoherent :
+  coherent (fun d : N => d) (1%N, 1%N) /\
+  ~ coherent (fun d : N => d) (fst (mgr_exec settings_like (1%N, 1%N) (Some (1%nat, false)) false)).
+Proof. split; [reflexivity|]. vm_compute. discriminate. Qed.
+
+(** * The chain batch *)
+Section SyncP.
+  Variables (data batch : Type).
+  Variable next : N -> option (batch * N).
+  Variables (wallet_upd contracts_upd settings_upd : batch -> data -> res data).
+
+  Notation body_of := (batch_body wallet_upd contracts_upd settings_upd).
+  Notation iter := (sync_iter next wallet_upd contracts_upd settings_upd).
+  Notation run := (run_sync next wallet_upd contracts_upd settings_upd).
+
+  (* wallet, contracts, announcement state and the marker change together or not at all *)
+  Lemma batch_atomic : forall b m' (s : idb data) c,
+    let r := exec [ITxn (body_of b m')] s c false in
+    (r_res r <> Ok tt -> r_db r = s) /\
+    (r_res r = Ok tt -> exists d1 d2 d3,
+        wallet_upd b (d_data s) = Ok d1 /\ contracts_upd b d1 = Ok d2 /\ settings_upd b d2 = Ok d3 /\
+        r_db r = {| d_data := d3; d_marker := m' |}).
+  Proof.
+    intros b m' s c r. split.
+    - apply single_atomic.
+    - intros H. apply single_all in H. destruct H as [tr0 H]. fold r in H.
+      unfold batch_body in H. cbn in H.
+      destruct (wallet_upd b (d_data s)) as [d1| |] eqn:E1; cbn in H; try (inversion H; fail).
+      destruct (contracts_upd b d1) as [d2| |] eqn:E2; cbn in H; try (inversion H; fail).
+      destruct (settings_upd b d2) as [d3| |] eqn:E3; cbn in H; try (inversion H; fail).
+      inversion H. exists d1, d2, d3. auto.
+  Qed.
+
+  Notation clean := (clean next wallet_upd contracts_upd settings_upd).
+  Notation iter_clean := (iter_clean next wallet_upd contracts_upd settings_upd).
+  Notation tip_is_marker := (@tip_is_marker data).
+
+  (* patched order: a sync attempt, whatever fails in it, is a no-op or the clean step *)
+  Lemma sync_iter_stutter : forall c pf s, iter true c pf s = s \/ iter true c pf s = clean s.
+  Proof.
+    intros c pf s. unfold clean, sync_iter. destruct (next (i_tip s)) as [[b m']|]; [|left; reflexivity].
+    cbn [exec]. destruct (transaction (body_of b m') (i_db s) c) as [[[a tr] c'] s'] eqn:E.
+    destruct a as [| e | | busy].
+    - right. apply transaction_ok in E. destruct E as [tr0 E]. rewrite E. cbn.
+      rewrite Bool.andb_false_r. reflexivity.
+    - left. cbn. assert (s' = i_db s) as -> by (eapply transaction_unchanged; eauto; discriminate). destruct s; reflexivity.
+    - left. cbn. assert (s' = i_db s) as -> by (eapply transaction_unchanged; eauto; discriminate). destruct s; reflexivity.
+    - left. cbn. assert (s' = i_db s) as -> by (eapply transaction_unchanged; eauto; discriminate). destruct s; reflexivity.
+  Qed.
+
+  (* any schedule of failures only delays the uninterrupted run *)
+  Lemma resume_converges : forall sched s, exists n, (n <= List.length sched)%nat /\ run true sched s = iter_clean n s.
+  Proof.
+    induction sched as [|[c pf] t IH]; intros s.
+    - exists O. split; [cbn; lia | reflexivity].
+    - cbn [run_sync]. destruct (sync_iter_stutter c pf s) as [H|H]; rewrite H.
+      + destruct (IH s) as [n [Hn E]]. exists n. split; [cbn; lia | exact E].
+      + destruct (IH (clean s)) as [n [Hn E]]. exists (S n). split; [cbn; lia | exact E].
+  Qed.
+
+  (* the in-memory tip follows the marker, so a restart changes nothing *)
+  Lemma clean_keeps_tip : forall c pf s, tip_is_marker s -> tip_is_marker (iter true c pf s).
+  Proof.
+    unfold tip_is_marker, sync_iter. intros c pf s H.
+    destruct (next (i_tip s)) as [[b m']|]; [|exact H].
+    destruct (batch_atomic b m' (i_db s) c) as [Hf Hs].
+    destruct (r_res (exec [ITxn (body_of b m')] (i_db s) c false)) as [[]| e |] eqn:E.
+    - destruct (Hs eq_refl) as [d1 [d2 [d3 [_ [_ [_ Hdb]]]]]].
+      replace (pf && negb true) with false by (destruct pf; reflexivity). cbn [i_tip i_db]. rewrite Hdb. reflexivity.
+    - cbn [i_tip i_db]. rewrite Hf by discriminate. exact H.
+    - cbn [i_tip i_db]. rewrite Hf by discriminate. exact H.
+  Qed.
+
+  Lemma run_keeps_tip : forall sched s, tip_is_marker s -> tip_is_marker (run true sched s).
+  Proof.
+    induction sched as [|[c pf] t IH]; intros s H; [exact H|]. cbn. apply IH. apply clean_keeps_tip. exact H.
+  Qed.
+
+  Lemma restart_is_identity : forall s, tip_is_marker s -> restart_idx s = s.
+  Proof. unfold tip_is_marker, restart_idx. intros [d t] H. cbn in *. subst. reflexivity. Qed.
+End SyncP.
+
+(* original order (tip updated only after the post-commit actions): a failing action
+   makes the next sync apply the same batch again *)
+
+Lemma tip_after_actions_diverges :
+  let s := run_sync ex_next ex_upd ex_id ex_id false [(None, true); (None, false)] ex_s0 in
+  d_marker (i_db s) = 1%N /\ d_data (i_db s) = 2%N /\
+  d_data (i_db (run_sync ex_next ex_upd ex_id ex_id true [(None, true); (None, false)] ex_s0)) = 2%N /\
+  d_marker (i_db (run_sync ex_next ex_upd ex_id ex_id true [(None, true); (None, false)] ex_s0)) = 2%N.
+Proof. vm_compute. auto. Qed.
+
+(** * Batched maintenance loops *)
+Lemma take_sel_length : forall n l rest k,
+  take_sel n l = (rest, k) -> List.length l = (List.length rest + k)%nat /\ (k <= n)%nat.
+Proof.
+  intros n l. revert n. induction l as [|[id sel] t IH]; intros n rest k H; cbn in H.
+  - inversion H; subst. cbn. lia.
+  - destruct sel.
+    + destruct n as [|n].
+      * inversion H; subst. cbn. lia.
+      * destruct (take_sel n t) as [r1 k1] eqn:E. inversion H; subst. apply IH in E. cbn. lia.
+    + destruct (take_sel n t) as [r1 k1] eqn:E. inversion H; subst. apply IH in E. cbn. lia.
+Qed.
+
+Lemma take_sel_unselected : forall n l rest k,
+  take_sel n l = (rest, k) ->
+  filter (fun r => negb (snd r)) rest = filter (fun r => negb (snd r)) l.
+Proof.
+  intros n l. revert n. induction l as [|[id sel] t IH]; intros n rest k H; cbn in H.
+  - inversion H; subst. reflexivity.
+  - destruct sel.
+    + destruct n as [|n].
+      * inversion H; subst. reflexivity.
+      * destruct (take_sel n t) as [r1 k1] eqn:E. inversion H; subst. cbn. eapply IH; eauto.
+    + destruct (take_sel n t) as [r1 k1] eqn:E. inversion H; subst. cbn. f_equal. eapply IH; eauto.
+Qed.
+
+(* a batch that removed nothing although it may take at least one row: no selected row is left *)
+Lemma take_sel_zero : forall n l rest,
+  take_sel (S n) l = (rest, O) -> rest = l /\ filter (fun r => snd r) l = [].
+Proof.
+  intros n l. induction l as [|[id sel] t IH]; intros rest H; cbn in H.
+  - inversion H; subst. auto.
+  - destruct sel.
+    + destruct (take_sel n t) as [r1 k1]. inversion H.
+    + destruct (take_sel (S n) t) as [r1 k1] eqn:E. inversion H; subst.
+      destruct (IH r1 eq_refl) as [-> Hf]. cbn. auto.
+Qed.
+
+Lemma batch_step_consistent : forall bsz s, consistent s -> consistent (fst (batch_step bsz s)).
+Proof.
+  unfold consistent, batch_step. intros bsz s H. destruct (take_sel bsz (rows s)) as [rest k] eqn:E.
+  apply take_sel_length in E. cbn. lia.
+Qed.
+
+Lemma batch_step_unselected : forall bsz s, unselected (fst (batch_step bsz s)) = unselected s.
+Proof.
+  unfold unselected, batch_step. intros bsz s. destruct (take_sel bsz (rows s)) as [rest k] eqn:E.
+  cbn. eapply take_sel_unselected; eauto.
+Qed.
+
+Lemma filter_all_unselected : forall (l : list (N * bool)),
+  filter (fun r => snd r) l = [] -> filter (fun r => negb (snd r)) l = l.
+Proof.
+  induction l as [|[id sel] t IH]; intros H; [reflexivity|]. cbn in *. destruct sel; [discriminate|].
+  cbn. f_equal. auto.
+Qed.
+
+(* every state the loop can stop in — completed or interrupted at any batch — is
+   consistent and has lost only selected rows *)
+Lemma batch_loop_inv : forall fuel bsz fa s,
+  consistent s ->
+  consistent (fst (batch_loop fuel bsz fa s)) /\ unselected (fst (batch_loop fuel bsz fa s)) = unselected s.
+Proof.
+  induction fuel as [|f IH]; intros bsz fa s H; cbn [batch_loop].
+  - cbn. auto.
+  - pose proof (batch_step_consistent bsz s H) as Hc.
+    pose proof (batch_step_unselected bsz s) as Hu.
+    destruct fa as [[|j]|].
+    + cbn. auto.
+    + destruct (batch_step bsz s) as [s' k]. cbn [fst] in Hc, Hu.
+      destruct k; [cbn; auto|]. destruct (IH bsz (Some j) s' Hc) as [H1 H2]. split; [exact H1 | congruence].
+    + destruct (batch_step bsz s) as [s' k]. cbn [fst] in Hc, Hu.
+      destruct k; [cbn; auto|]. destruct (IH bsz None s' Hc) as [H1 H2]. split; [exact H1 | congruence].
+Qed.
+
+(* with enough fuel the un-faulted loop ends with exactly the unselected rows *)
+Lemma batch_loop_completes : forall fuel bsz s,
+  (List.length (rows s) < fuel)%nat ->
+  snd (batch_loop fuel (S bsz) None s) = true /\ rows (fst (batch_loop fuel (S bsz) None s)) = unselected s.
+Proof.
+  induction fuel as [|f IH]; intros bsz s Hf; [lia|]. cbn [batch_loop]. unfold batch_step.
+  destruct (take_sel (S bsz) (rows s)) as [rest k] eqn:E2.
+  destruct k as [|k].
+  - cbn. apply take_sel_zero in E2. destruct E2 as [-> Hnone]. split; [reflexivity|].
+    unfold unselected. symmetry. apply filter_all_unselected. exact Hnone.
+  - apply take_sel_length in E2 as E3. destruct E3 as [Hl _].
+    apply take_sel_unselected in E2.
+    destruct (IH bsz {| rows := rest; counter := counter s - Z.of_nat (S k) |}) as [H1 H2]; [cbn; lia|].
+    split; [exact H1|]. rewrite H2. unfold unselected. cbn. exact E2.
+Qed.
+
+Lemma bstate_eq : forall a b, rows a = rows b -> consistent a -> consistent b -> a = b.
+Proof.
+  unfold consistent. intros [ra ca] [rb cb] H Ha Hb. cbn in *. subst. reflexivity.
+Qed.
+
+Lemma batch_loop_shrinks : forall fuel bsz fa s,
+  (List.length (rows (fst (batch_loop fuel (S bsz) fa s))) <= List.length (rows s))%nat.
+Proof.
+  induction fuel as [|f IH]; intros bsz fa s0; cbn [batch_loop]; [cbn; lia|].
+  destruct fa as [[|jj]|]; [cbn; lia| |].
+  - unfold batch_step. destruct (take_sel (S bsz) (rows s0)) as [rest k] eqn:E2.
+    apply take_sel_length in E2. destruct k; cbn [fst rows]; [lia|].
+    specialize (IH bsz (Some jj) {| rows := rest; counter := counter s0 - Z.of_nat (S k) |}). cbn [rows] in IH. lia.
+  - unfold batch_step. destruct (take_sel (S bsz) (rows s0)) as [rest k] eqn:E2.
+    apply take_sel_length in E2. destruct k; cbn [fst rows]; [lia|].
+    specialize (IH bsz None {| rows := rest; counter := counter s0 - Z.of_nat (S k) |}). cbn [rows] in IH. lia.
+Qed.
+
+(* interrupted anywhere and started again, the operation ends where the uninterrupted one does *)
+Lemma batch_retry_converges : forall fuel bsz j s,
+  consistent s -> (List.length (rows s) < fuel)%nat ->
+  fst (batch_loop fuel (S bsz) None (fst (batch_loop fuel (S bsz) (Some j) s))) = fst (batch_loop fuel (S bsz) None s).
+Proof.
+  intros fuel bsz j s Hc Hf.
+  destruct (batch_loop_inv fuel (S bsz) (Some j) s Hc) as [Hc1 Hu1].
+  set (s1 := fst (batch_loop fuel (S bsz) (Some j) s)) in *.
+  assert (List.length (rows s1) <= List.length (rows s))%nat as Hlen.
+  { apply batch_loop_shrinks. }
+  destruct (batch_loop_completes fuel bsz s1) as [_ R1]; [lia|].
+  destruct (batch_loop_completes fuel bsz s Hf) as [_ R2].
+  apply bstate_eq.
+  - rewrite R1, R2. exact Hu1.
+  - apply batch_loop_inv. exact Hc1.
+  - apply batch_loop_inv. exact Hc.
+Qed.
+
+(** * Correspondence model: what [predict] says for single-transaction methods *)
+Lemma is_single_shape : forall e, is_single e = true -> sm_shape e = [STxn].
+Proof.
+  unfold is_single. intros e H. destruct (sm_shape e) as [|[| | |] [|? ?]]; try discriminate. reflexivity.
+Qed.
+
+(* every writing method of the generated table that is not on the documented list is one
+   transaction (table_ok unfolded for a member) *)
+Lemma writer_single_or_documented : forall e,
+  In e store_methods -> sm_writes e = true -> mem_str (sm_name e) exempt = false ->
+  lookup_multi (sm_name e) documented_multi = None -> sm_shape e = [STxn].
+Proof.
+  intros e Hin Hw Hex Hdoc.
+  pose proof table_ok_holds as T. unfold table_ok in T. rewrite forallb_forall in T.
+  specialize (T e Hin). unfold writer_ok in T. rewrite Hw, Hex, Hdoc in T. cbn in T.
+  rewrite Bool.orb_false_r in T. apply Bool.andb_true_iff in T. destruct T as [T _].
+  apply is_single_shape. exact T.
+Qed.
